@@ -444,6 +444,39 @@ func c04run(r *ev.Run) {
 			}
 		}
 	}
+	// (d) every prefix operator chain of length <= 2 in front of every operand kind, as an expression, a field, a
+	// condition, a call argument and a dimension (the sign branch of the expression parser has one case per kind)
+	signs := []string{"", "+", "-", "+ +", "- -", "+ -", "- +", "-(", "+(", "(+", "(-"}
+	operands := []string{"1", "0", "9223372036854775807", "9223372036854775808", "18446744073709551615", "18446744073709551616", "1.5", ".5", "1e3", "1h", "0s",
+		"'s'", "true", "now()", "x", `"q i"`, "/re/", "$p", "$", "*", "f(x)", "(x)", "x::float", "1h30", "''", `""`}
+	frames := []struct {
+		tmpl  string
+		entry int
+	}{{"%s", 2}, {"SELECT %s FROM m", 1}, {"SELECT x FROM m WHERE %s > 1", 1}, {"SELECT f(%s, 2) FROM m GROUP BY time(%s)", 1}, {"SELECT x FROM m WHERE time > now() - %s", 0}}
+	var nSign int64
+	parallelFor(len(signs)*len(operands), func(i int) {
+		sg, op := signs[i/len(operands)], operands[i%len(operands)]
+		e := sg + op
+		if strings.Contains(sg, "(") {
+			e += ")"
+		}
+		for _, fr := range frames {
+			t := strings.ReplaceAll(fr.tmpl, "%s", e)
+			for _, params := range []map[string]interface{}{nil, {"p": int64(-5)}, {"p": map[string]interface{}{"duration": "1h"}}} {
+				if params != nil && !strings.Contains(t, "$") {
+					continue
+				}
+				fs, _ := c04parse(t, fr.entry, params, c04Case{Bytes: []byte(t), Text: fmt.Sprintf("%q", t), Entry: fr.entry}, fmt.Sprintf("%s(%q)", c04entries[fr.entry], t), len(t))
+				r.Eval()
+				atomic.AddInt64(&nSign, 1)
+				r.State(astx.HashString("S|"+t+fmt.Sprint(params)), true)
+				for _, f := range fs {
+					r.Report(f)
+				}
+			}
+		}
+	})
+	r.Set("sign_x_operand_texts", atomic.LoadInt64(&nSign))
 	r.AddSample(fmt.Sprintf("ladder parens n=%d: %s…", 4, func() string { t, _ := c04ladders["parens"](4); return t }()))
 	r.Set("ladders", names)
 	r.Set("ladder_max_n", maxN)
